@@ -42,7 +42,7 @@ class E2Env:
 
     def __init__(self, module_name: str, **cfg_sections):
         self.config, self.gen = pyn.import_pynguin()
-        self.out_dir = tempfile.mkdtemp(prefix="verif-e2-", dir="/dev/shm")
+        self.out_dir = tempfile.mkdtemp(prefix="verif-e2-")
         self.cfg = pyn.make_config(module_name, self.out_dir, **cfg_sections)
         self.executor0, self.cluster, self.constants = pyn.setup_sut(self.cfg)
         self.props = self.executor0.subject_properties
